@@ -195,8 +195,11 @@ def ref_build(n, xb, Y, vals, kappa=1.0):
     return r
 
 
-def ref_update(ref, k, y_abs, newvals, kappa=1.0):
-    """Replace point k by y (absolute coordinates); returns the new Ref or None if not poised."""
+def ref_update(ref, k, y_abs, newvals, kappa=1.0, R=None, extra_mag=None):
+    """Replace point k by y (absolute coordinates); returns the new Ref or None if not poised.  ``R`` is the
+    distance from the base within which the old model is evaluated (default: the few radii of the lattice);
+    ``extra_mag`` (per function) replaces the magnitude of the old model in the rounding budget (real runs: the
+    magnitude of the terms of its stored representation, which may cancel)."""
     n = ref.n
     y = [a - b for a, b in zip(y_abs, ref.xb)]
     new = ref.copy()
@@ -214,10 +217,12 @@ def ref_update(ref, k, y_abs, newvals, kappa=1.0):
     if sols is None:
         return None
     add = lfn_model(new.Y, n, sols)
-    R = 4.0 * n ** 0.5 + 1.0
+    if R is None:
+        R = 4.0 * n ** 0.5 + 1.0
     new.err = []
     for fi in range(len(ref.vals)):
-        b = solve_budget(new.Y, n, sols[fi], kappa, extra=model_mag(ref.models[fi], R))
+        b = solve_budget(new.Y, n, sols[fi], kappa,
+                         extra=model_mag(ref.models[fi], R) if extra_mag is None else extra_mag[fi])
         new.err.append(tuple(a + c for a, c in zip(ref.err[fi], b)))
     for fi in range(len(ref.vals)):
         c0, g0, H0 = ref.models[fi]
